@@ -2,6 +2,7 @@ import QP.Model.PT
 import QP.Proofs.PTExamples
 import QP.Proofs.PTTop2
 import QP.Proofs.PTTop3
+import QP.Proofs.PTSingle
 import QP.Proofs.PTTable
 /-!
 # C01 — an instantiated program plays exactly the voltages the template describes
@@ -68,6 +69,41 @@ theorem compile_correct_stage2 {pt : PT} (hs : Stage2 pt) (params : List (String
 denoted pulse — provided no transformation of `T` or below touches an overwritten channel (`pf11Chans … = []`). -/
 theorem compile_correct_under_trafo {pt : PT} (hs : Stage3 pt) : CompileOKT pt := compile_relT hs.basicT
 
+/-- **`create_program(global_transformation = T)`**: the program of a stage-3 template plays the chain `T` applied,
+channel by channel (`Chain.chanF`: `none` = channel absent), to the denoted pulse, for every chain of offset / scaling /
+parallel-constant transformations — outside PF-11 relative to the channels `T` names. -/
+theorem compile_correct_global_trafo_partial {pt : PT} (hs : Stage3 pt) (params : List (String × Rat))
+    (mm : Option (List (MName × Option MName))) (cm : List (Chan × Option Chan)) (T : Chain) (prog : Loop) (P : Pulse)
+    (hpf : pf11Chans pt (topCm pt cm) (Chain.keys T) = [])
+    (hprog : QP.C05.createProgramT pt params mm cm [] T = .ok (some prog)) (hden : denoteTop pt params mm cm = .ok P)
+    (hpos : prog.allPos) :
+    prog.duration = P.dur ∧
+    (∀ c t, 0 ≤ t → t < P.dur → ∀ v, QP.C05.Chain.chanF T c (P.val c t) = some v → prog.sample c t = v) ∧
+    (∀ cs ∈ prog.leafChannels, ∀ x, x ∈ cs ↔ QP.C05.Chain.presF T x (P.chanNames.contains x) = true) := by
+  obtain ⟨h1, h2, _, h4⟩ := createProgramT_rel hs params mm cm T prog P hpf hprog hden hpos
+  exact ⟨h1, h2, h4⟩
+
+/-- **every `to_single_waveform` set**: the default program is correct (`compile_correct_partial`) and collapsing
+sub-templates into single waveforms changes nothing observable (C05 `collapse_invariant_partial`), so the program
+compiled with any set `S` plays the denoted pulse too — per channel `c` of the pulse, outside PF-11 and outside C05's
+exclusion class `cleanW` (PF-11 below a collapsed template, time reversal around a collapsed template), under C05's
+output-checkable side conditions `tidy c` on the sequence waveforms of the two programs. -/
+theorem compile_correct_single_partial {pt : PT} (hs : Stage3 pt) (params : List (String × Rat))
+    (mm : Option (List (MName × Option MName))) (cm : List (Chan × Option Chan)) (S : List String)
+    (prog0 progS : Loop) (P : Pulse)
+    (hpf : inPF11 pt (topCm pt cm) = false)
+    (h0 : createProgram pt params mm cm [] = .ok (some prog0)) (hpos : prog0.allPos)
+    (hS : createProgram pt params mm cm S = .ok (some progS))
+    (hden : denoteTop pt params mm cm = .ok P)
+    (hclean : QP.C05.cleanW S false false pt = true)
+    (c : Chan) (pl : PL) (hc : P.chans.lookup c = some pl)
+    (ht0 : QP.C05.allLeaves (QP.C05.tidy c) prog0 = true) (htS : QP.C05.allLeaves (QP.C05.tidy c) progS = true) :
+    progS.duration = P.dur ∧
+    QP.C05.allLeaves (fun x => x.channels.contains c) progS = true ∧
+    ∀ t, 0 ≤ t → t < P.dur → progS.sample c t = PL.at pl t := by
+  obtain ⟨h1, _, h3, h4⟩ := createProgram_single hs params mm cm S prog0 progS P hpf h0 hpos hS hden hclean c pl hc ht0 htS
+  exact ⟨h1, h3, h4⟩
+
 /-- **the builder is correct whatever the atoms are**: sequences, repetitions, iterations and mappings of
 atomic templates that satisfy the relation `Rel` (leaf and windows = denoted pulse) satisfy it again — this is
 the `LoopBuilder` part of compile correctness (`LoopGuard`, `_try_append`, `with_repetition`,
@@ -129,11 +165,24 @@ example : Stage2 (.seq none [exPt, .rep none exPt (.var "n") [] []] [] []) :=
 example : ∃ prog P, createProgram exPt [] none [] [] = .ok (some prog) ∧ denoteTop exPt [] none [] = .ok P ∧
     prog.allPos := ⟨exProg, _, exPt_program, exPt_denote, exProg_allPos⟩
 
+/-- a parallel-channel template below an arithmetic one, outside PF-11: in the scope of `compile_correct_partial` -/
+example : Stage3 pf11SafePt ∧ inPF11 pf11SafePt (topCm pf11SafePt []) = false :=
+  ⟨Stage3.arith (Stage3.parallel (Stage3.atom AtomTree.func)) (by
+    intro x hx
+    simp only [List.mem_singleton] at hx
+    subst hx
+    decide), by decide⟩
+
+/-- the PF-11 witness is a stage-3 template; the only hypothesis of `compile_correct_partial` it violates is the
+class predicate -/
+example : Stage3 pf11Pt ∧ inPF11 pf11Pt (topCm pf11Pt []) = true :=
+  ⟨Stage3.arith (Stage3.parallel (Stage3.atom AtomTree.func)) trivial, by decide⟩
+
 /-! ## PF-11 (open finding): `ParallelChannelPulseTemplate` chains `(global, parallel)`
 
 The full statement is **false** of the code: a channel overwritten by a `ParallelChannelPT` that lies below an
 `ArithmeticPT` (or another `ParallelChannelPT`) touching that channel does not see the enclosing
-transformation.  `Stage1` contains neither constructor, so `compile_correct_partial` is outside the class;
+transformation.  `compile_correct_partial` assumes `inPF11 … = false`, i.e. is stated for exactly the complement of the class;
 `inPF11` is the class predicate the harness uses (`ptcheck.pf11_channels`). -/
 
 /-- **PF-11, the negation of the full statement on the witness** `2 * ParallelChannelPT(FunctionPT('t', 2, 'A'),
